@@ -13,7 +13,7 @@ pub fn def() -> CheckDef {
         bounds_quick: "dagger laws: W<=2,X<=1,S,T<=2,interfaces<=2 (pairs: interfaces<=1); spider accept/reject: |w|<=2, legs<=2 with symbolic codomains 0..3; fusion: |w|,|w'|<=2, legs<=2 (shared boundary <=2)",
         bounds_thorough: "dagger laws W<=3,X<=2; spiders |w|<=3, legs<=3",
         jobs,
-        budget_s: (150, 2400),
+        budget_s: (150, 1500),
     }
 }
 
@@ -106,7 +106,7 @@ fn oracle_id_twist(inp: &PV, out: &PV) -> T {
 pub fn jobs(tier: Tier, seed: u64) -> Vec<Job> {
     let per_job = Duration::from_secs(match tier {
         Tier::Quick => 60,
-        Tier::Thorough => 900,
+        Tier::Thorough => 600,
     });
     let cfg = base_cfg(tier);
     let mut groups: Vec<Vec<(bool, Case)>> = vec![];
